@@ -61,9 +61,9 @@ void plan_print(const struct plan *p, FILE *f)
 		p->cfg.short_io, p->cfg.pipe_sz, p->cfg.fault_seed, p->cfg.sched_seed,
 		p->cfg.max_steps, p->cfg.max_vtime_ns, p->bulk_n);
 	for (i = 0; i < p->nthr; i++)
-		fprintf(f, "thread %d %c cycles=%d exit=%d deinit=%d td=%d sigblock=%d\n", i,
+		fprintf(f, "thread %d %c cycles=%d exit=%d deinit=%d td=%d sigblock=%d reenter=%d\n", i,
 			p->thr[i].kind, p->thr[i].cycles, p->thr[i].exitmode,
-			p->thr[i].deinit, p->thr[i].td, p->thr[i].sigmask_all);
+			p->thr[i].deinit, p->thr[i].td, p->thr[i].sigmask_all, p->thr[i].reenter);
 	for (i = 0; i < p->nobj; i++) {
 		if (p->obj[i].kind == K_NONE)
 			continue;
@@ -150,8 +150,8 @@ int plan_parse(struct plan *p, FILE *f, char *err, int errlen)
 			char k;
 			struct pthr t;
 			memset(&t, 0, sizeof(t));
-			if (sscanf(line + off, " %d %c cycles=%d exit=%d deinit=%d td=%d sigblock=%d", &i, &k,
-				   &t.cycles, &t.exitmode, &t.deinit, &t.td, &t.sigmask_all) != 7 ||
+			if (sscanf(line + off, " %d %c cycles=%d exit=%d deinit=%d td=%d sigblock=%d reenter=%d", &i, &k,
+				   &t.cycles, &t.exitmode, &t.deinit, &t.td, &t.sigmask_all, &t.reenter) < 7 ||
 			    i < 0 || i >= MAXTHR) {
 				snprintf(err, errlen, "line %d: bad thread", lineno);
 				free(line);
